@@ -533,6 +533,8 @@ def h_interchange(ctx, mod, q, fn, c, kind):
     c05.check(sub)
     probs = ["%s %s: found %s required %s" % (o.rule, o.construct, o.found, o.required) for o in sub.obs if not o.ok and o.rule == "R05.2"]
     n = sum(1 for o in sub.obs if o.rule == "R05.2" and o.ok)
+    if not probs and sub.broken:
+        raise AnalysisError("dependency C05 of C01 could not be analysed: %s" % sub.broken)
     if not probs and n < 3:
         probs.append("fewer than 3 exchanging branches verified (%d)" % n)
     return probs, "generic-instance(interchange, %d branches)" % n
